@@ -13,7 +13,7 @@ LEVEL = "exploration"
 RULE = (
     "case = generated machine (callbacks on machine, model, constructor and late listeners, sync or coroutine, scripted nested sends, values of "
     "any kind) with non-default options (rtc, allow_event_without_transition, state_field, start_value), a model of a drawn shape and a custom "
-    "mutable attribute; history with `clone` ops (copy.deepcopy or pickle round-trip) at any point - also before the activation of a coroutine "
+    "mutable attribute, optionally with the event triggers bound onto the model (bind_events_to) and used from there; history with `clone` ops (copy.deepcopy or pickle round-trip) at any point - also before the activation of a coroutine "
     "machine - after which original and clones receive diverging event suffixes. Oracle: the reference interpreter is forked at the clone point "
     "and each machine must follow its own fork (states, results, exceptions, full callback logs - so options, listeners and model callbacks "
     "survived); clone.model / listeners / recorder / custom attribute are equal but not shared (mutating one side is invisible on the other); "
@@ -27,6 +27,14 @@ class P(Play):
     async def construct(self, name="main", model=None, Hh=None, state0=None):
         ctx = await super().construct(name, model, Hh, state0)
         ctx.sm.custom = [1, {"a": [2]}]
+        m = ctx.sm.model
+        if self.cfg.get("bind_model") and not any(hasattr(m, e) for e in self.spec["events"]):
+            try:
+                ctx.sm.bind_events_to(m)  # the model gets one trigger method per event
+                ctx.extra["bound"] = m
+                self.labels.add("events-bound-to-model")
+            except (AttributeError, TypeError):
+                pass  # models that cannot take attributes (e.g. slots)
         return ctx
 
     async def op_send(self, step):
@@ -65,6 +73,8 @@ class P(Play):
         it2 = copy.deepcopy(src.interp)
         it2.spec = src.interp.spec
         ctx = Ctx(name, sm2, H2, it2, sm2.model)
+        if "bound" in src.extra:
+            ctx.extra["bound"] = sm2.model  # the copy of the model carries copies of the bound triggers
         self.ctxs[name] = ctx
         for c in (src, ctx):
             c.H.log[:] = [t for t in c.H.log if t[0] != "G"]
@@ -123,7 +133,7 @@ def cases(draw, tier):
     is_async = gen.is_async_spec(spec)
     cfg = {"rtc": True if is_async else draw(st.booleans()), "allow": draw(st.booleans()), "driver": draw(st.sampled_from(["sync", "sync", "loop"])),
            "activate": draw(st.booleans()), "late": list(late) if draw(st.booleans()) else [],
-           "model_shape": draw(st.sampled_from(["default", "plain", "property", "class-default", "falsy-list", "len0"]))}
+           "model_shape": draw(st.sampled_from(["default", "plain", "property", "class-default", "falsy-list", "len0"])), "bind_model": draw(st.booleans())}
     if draw(st.booleans()):
         cfg["state_field"] = draw(st.sampled_from(["status", "st", "_state"]))
     if draw(st.integers(0, 2)) == 0:
@@ -138,6 +148,8 @@ def cases(draw, tier):
             hist.append({"op": "clone", "how": draw(st.sampled_from(["deepcopy", "pickle"])), "name": nm, "source": draw(st.sampled_from(["main"] + names)),
                          "protocol": draw(st.sampled_from([2, 4, 5]))})
             names.append(nm)
+        if draw(st.integers(0, 2)) == 0:
+            step = dict(step, style="bound")
         if names:
             step = dict(step, target=draw(st.sampled_from(["main"] + names)))
         hist.append(step)
